@@ -14,6 +14,7 @@ Inductive obs :=
   | OShould (i : ip) (intf : N) (d : drop)
   | ORc (i : ip) (c : Z)
   | OGrp (intf g : N) (c : Z)
+  | OMemSum (g : N) (c : Z)     (* sockets joined to group g (kernel), summed over the NDP responders *)
   | OGrat (a : adv) (sent : list (bool * N))
   | OGratN (a : adv) (n : N)
   | OName (n : N) (b : bool)
@@ -28,6 +29,7 @@ Definition obs_ok (s : st) (o : obs) : bool :=
   | OShould i intf d => drop_eqb (should_announce s i intf) d
   | ORc i c => Z.eqb (rc s i) c
   | OGrp intf g c => Z.eqb (grp s intf g) c
+  | OMemSum g c => Z.eqb (fold_left (fun acc i => (acc + mem s i g)%Z) (ndps s) 0%Z) c
   | OGrat a sent => let m := gratuitous s a in
                     subset m sent && subset sent m && Nat.eqb (length m) (length sent)
   | OGratN a n => N.eqb (N.of_nat (length (gratuitous s a))) n
